@@ -337,7 +337,7 @@ func SortedKeys[V any](mp map[string]V) []string {
 // offered by the planner, with generated tuples; the generic generator reaches
 // these shapes only rarely.
 func FamilyWorld(t *rapid.T, o Opts) World {
-	return familyWorld(t, o, rapid.IntRange(0, 10).Draw(t, "family"))
+	return familyWorld(t, o, rapid.IntRange(0, 11).Draw(t, "family"))
 }
 
 // CycleWorld draws a world from the families whose relations are mutually
@@ -472,6 +472,19 @@ func familyWorld(t *rapid.T, o Opts, family int) World {
 				{Name: "parent", Rewrite: this(), Restr: []m.Restriction{{Type: "group"}}},
 				{Name: "r0", Rewrite: this(), Restr: []m.Restriction{{Type: "group", Rel: "r2"}}},
 				{Name: "r1", Rewrite: &m.Rewrite{Kind: m.TTU, Tupleset: "parent", Rel: "r2"}}}})
+	case 11: // exclusion (or intersection) whose base is a union that the same userset enters directly and through a tuple-to-userset
+		op := m.Difference
+		if chance(t, "famIntersection", 30) {
+			op = m.Intersection
+		}
+		types = append(types,
+			m.TypeDef{Name: "group", Relations: []m.Relation{{Name: "r0", Rewrite: this(), Restr: userRestr}}},
+			m.TypeDef{Name: "doc", Relations: []m.Relation{
+				{Name: "parent", Rewrite: this(), Restr: []m.Restriction{{Type: "group"}}},
+				{Name: "r1", Rewrite: this(), Restr: userRestr},
+				{Name: "r0", Rewrite: &m.Rewrite{Kind: op, Children: []*m.Rewrite{
+					{Kind: m.Union, Children: []*m.Rewrite{this(), {Kind: m.TTU, Tupleset: "parent", Rel: "r0"}}},
+					{Kind: m.Computed, Rel: "r1"}}}, Restr: []m.Restriction{user, {Type: "group", Rel: "r0"}}}}})
 	case 10: // one relation recursive through a userset AND through a tuple-to-userset
 		types = append(types, m.TypeDef{Name: "folder", Relations: []m.Relation{
 			{Name: "parent", Rewrite: this(), Restr: []m.Restriction{{Type: "folder"}}},
